@@ -19,6 +19,15 @@ from .sym import (
 )
 from .tmpl import STRLIKE, Fn, Hole, Join, Tmpl, is_symstr, tcat
 
+class EmittedCall(tuple):
+    """(function, result, ctx) of one harness-level call + the names ol_name() created in it"""
+
+    def __new__(cls, t, own_names):
+        o = super().__new__(cls, t)
+        o.own_names = own_names
+        return o
+
+
 EMITTED = None  # set to a list to record (function, result, path) of every harness-level call
 
 NORMAL = None
@@ -51,9 +60,14 @@ class Interp:
 
     def call_value(self, fn, *args, **kwargs):
         """Call from harness code; returns value, or an IGen for generator functions."""
+        from . import sym as _sym
+        c = _sym.CTX  # None when called outside a symbolic run (plain concrete call)
+        lo = len(getattr(c, "ol_created", ()))
         r = self.run(self.call(fn, list(args), dict(kwargs)))
-        if EMITTED is not None:
-            EMITTED.append((getattr(fn, "__qualname__", repr(fn)), r, ctx()))
+        if EMITTED is not None and c is not None:
+            # names created by ol_name() during this very call (for the temporaries clause of C09)
+            own = list(getattr(c, "ol_created", ())[lo:])
+            EMITTED.append(EmittedCall((getattr(fn, "__qualname__", repr(fn)), r, c), own))
         return r
 
     def native(self, f, *a, **k):
